@@ -1,4 +1,5 @@
 CONSTANT SigCache = TRUE
+CONSTANT Devices <- MCDevices
 SPECIFICATION Spec
 INVARIANT FreshSignature
 CONSTRAINT Bounded
